@@ -52,6 +52,32 @@ func c14Configs(thorough bool) (cfgs []modelCfg, conc []bool) {
 			}
 		}
 	}
+	// the pool's wrappers of the four variants (sequential use of one pool, two requests)
+	for _, v := range variants {
+		for n := 2; n <= 3; n++ {
+			sal := salPattern("desc", n)
+			for setter := -1; setter < n; setter++ {
+				for _, fail := range subsetsUpTo(n, 1) {
+					var rules []ruleCfg
+					for i := 0; i < n; i++ {
+						rules = append(rules, ruleCfg{Name: ruleNames[i], Sal: sal[i], Fail: fail[i], SetsTag: i == setter})
+					}
+					for _, b := range []bool{false, true} {
+						if !v.policy && b {
+							continue
+						}
+						cfg := modelCfg{Prop: "C14", Rules: rules, Model: v.name, B: b, ViaPool: true, Twice: true}
+						if v.sel {
+							names := append([]string{}, ruleNames[:n]...)
+							cfg.Names = append(names[1:], names[0])
+						}
+						cfgs = append(cfgs, cfg)
+						conc = append(conc, false)
+					}
+				}
+			}
+		}
+	}
 	return
 }
 
@@ -62,7 +88,7 @@ func init() {
 		BudgetQuick: 120 * time.Second,
 		BudgetThor:  20 * time.Minute,
 		Kind:        "schedules",
-		Rule: "4 stop-tag variants x 1..4 rules x 3 salience patterns x every position of the tag-setting rule (or none) x every failing subset of size <=2 (incl. the setter itself) x policy; sorted variants: one deterministic execution; mix variant: every schedule with <=2 (thorough 3) preemptions; " +
+		Rule: "4 stop-tag variants (engine level, and through the pool's wrappers with two requests on one pool) x 1..4 rules x 3 salience patterns x every position of the tag-setting rule (or none) x every failing subset of size <=2 (incl. the setter itself) x policy; sorted variants: one deterministic execution; mix variant: every schedule with <=2 (thorough 3) preemptions; " +
 			"oracle = staged reference plan with tag semantics; when no rule sets the tag: differential against the tag-free twin model on the same input (error nil-ness, result keys, event log)",
 		Assume: []string{"injected observer functions terminate"},
 		Run: func(c *hx.Ctx) {
